@@ -10,6 +10,7 @@ import time
 import z3
 
 z3.set_param('model.completion', True)
+z3.set_param('memory_max_size', 3000)     # MB per process: a query that explodes is reported 'unknown' instead of eating the machine
 
 
 class PathAbort(BaseException):
@@ -63,9 +64,12 @@ def solve(constraints, logic=None, timeout_ms=20000, stats=None):
     except z3.Z3Exception:
         s = z3.Solver()
     s.set('timeout', int(timeout_ms))
-    for c in constraints:
-        s.add(c)
-    r = s.check()
+    try:
+        for c in constraints:
+            s.add(c)
+        r = s.check()
+    except z3.Z3Exception:
+        r = z3.unknown
     dt = time.time() - t0
     if stats is not None:
         stats.queries += 1
